@@ -13,6 +13,7 @@ import (
 	"encoding/pem"
 	"fmt"
 	"math/big"
+	"strings"
 	"sync"
 	"time"
 
@@ -373,8 +374,12 @@ func (m *chainMachine) bBidCreate(t *rapid.T) (cmBuilt, bool) {
 	case 1:
 		dep = m.params.bidMin + int64(rapid.IntRange(1, 50).Draw(t, "extra"))
 	}
-	return cmBuilt{fmt.Sprintf("CreateBid(%s/%d/%d/%d,%s,price=%s,deposit=%d)", m.byAddr[o.OrderID.Owner].name, o.OrderID.DSeq, o.OrderID.GSeq, o.OrderID.OSeq, p.name, priceCoin, dep),
-		&mtypes.MsgCreateBid{Order: o.OrderID, Provider: p.bech, Price: priceCoin, Deposit: cmCoin(dep)}, p}, true
+	provStr, spelling := p.bech, ""
+	if rapid.IntRange(0, 7).Draw(t, "upperCaseAddress") == 0 {
+		provStr, spelling = strings.ToUpper(p.bech), ",UPPER-CASE address"
+	}
+	return cmBuilt{fmt.Sprintf("CreateBid(%s/%d/%d/%d,%s%s,price=%s,deposit=%d)", m.byAddr[o.OrderID.Owner].name, o.OrderID.DSeq, o.OrderID.GSeq, o.OrderID.OSeq, p.name, spelling, priceCoin, dep),
+		&mtypes.MsgCreateBid{Order: o.OrderID, Provider: provStr, Price: priceCoin, Deposit: cmCoin(dep)}, p}, true
 }
 
 func minI64(a, b int64) int64 {
@@ -671,6 +676,25 @@ func (m *chainMachine) actions(prof cmProfile) map[string]func(*rapid.T) {
 		tx := m.deliverTwin(built, other)
 		_ = tx
 	})
+	add("failingBatch", func(t *rapid.T) {
+		// a transaction of two messages by one signer whose second message always fails (it closes
+		// a deployment that does not exist): the whole transaction is rolled back, so whatever the
+		// first message did - in the stores or anywhere else - must be gone
+		name := rapid.SampledFrom(cmBuilderNames).Draw(t, "batchOf")
+		built, ok := bs[name](t)
+		if !ok {
+			t.Skip("no target")
+		}
+		poison := &dtypes.MsgCloseDeployment{ID: dtypes.DeploymentID{Owner: built.signer.bech, DSeq: 987654321}}
+		tx := m.deliver(built.label+" + CloseDeployment(nonexistent) [one transaction]", built.msg, built.signer, poison)
+		if tx.ok {
+			m.fatalf("batch-not-atomic", "%s succeeded although its second message names a deployment that does not exist", tx.label)
+		}
+		if d := cmRawDiff(tx.pre, tx.post); len(d) > 0 {
+			m.fatalf("batch-not-atomic", "%s failed but changed state: %v", tx.label, d)
+		}
+		m.label("failed-two-message-transaction")
+	})
 	add("advance", m.aAdvance)
 	add("marketRound", m.aMarketRound)
 	add("withdrawThenClose", m.aWithdrawThenClose)
@@ -826,7 +850,17 @@ func (m *chainMachine) aWithdrawThenClose(t *rapid.T) {
 	}
 	l := cand[m.pick(t, "lease", len(cand))]
 	name := m.bidName(mtypes.BidID(l.LeaseID))
-	if rapid.IntRange(0, 3).Draw(t, "withdrawFirst") > 0 {
+	switch rapid.IntRange(0, 4).Draw(t, "withdrawFirst") {
+	case 0:
+	case 1:
+		// the withdrawal is part of a transaction that fails as a whole (its second message closes
+		// a deployment that does not exist): it is rolled back, and the close below - in the same
+		// block - has to settle as if it had never run
+		prov := m.byAddr[l.LeaseID.Provider]
+		poison := &dtypes.MsgCloseDeployment{ID: dtypes.DeploymentID{Owner: prov.bech, DSeq: 987654321}}
+		m.deliver("WithdrawLease("+name+") + CloseDeployment(nonexistent) [one transaction]", &mtypes.MsgWithdrawLease{LeaseID: l.LeaseID}, prov, poison)
+		m.label("rolled-back-withdrawal-then-close")
+	default:
 		m.deliver("WithdrawLease("+name+")", &mtypes.MsgWithdrawLease{LeaseID: l.LeaseID}, m.byAddr[l.LeaseID.Provider])
 	}
 	switch rapid.IntRange(0, 3).Draw(t, "closeHow") {
